@@ -371,7 +371,7 @@ class C01(TrajCheck):
 
 class C09(TrajCheck):
     pid = "C09"
-    lean_modules = []
+    lean_modules = ["MTProps.C09"]
 
     def body(self):
         n = 120 if self.tier == "quick" else 1500
